@@ -1,0 +1,23 @@
+//go:build verif
+
+// Contracts for the verification machinery under /verif (contract-based deductive
+// verification). This file is comment-only, is excluded from every normal build by the
+// "verif" build tag, and declares nothing. See /verif/DESIGN.md §4.
+
+package fhirpath
+
+//@ func (e *Expression) Evaluate(input, options) (res, err)
+//@   requires e != nil
+//@   defines res == topEval(e, input, options) && err == topErr(e, input, options)
+//@   ensures err == nil ==> validColl(res)
+//@   assigns nothing
+//
+// EvaluateAsBool follows the singleton rule of C06: empty -> false, one item -> its Boolean
+// value (true for a non-Boolean), more than one item -> error.
+//@ func (e *Expression) EvaluateAsBool(input, options) (res, err)
+//@   requires e != nil
+//@   let c = topEval(e, input, options)
+//@   let cerr = topErr(e, input, options)
+//@   ensures (err != nil) == (cerr != nil || tvC(c) == TV_ERR)
+//@   ensures err == nil ==> res == (tvC(c) == TV_T)
+//@   assigns nothing
